@@ -3,7 +3,7 @@ safety C01; views C10).  All functions are owned by C01 + C03 (built-in overflow
 
 Functions under contract (verbatim text of /repo/src, rewrite rules of lib.py only):
   read/abbrev.rs  AttributeSpecification::{new, name, form, implicit_const_value, size, parse}, get_attribute_size
-  read/unit.rs    allow_section_offset, parse_attribute (R-SPLIT: 4 verified verbatim copies), skip_attributes,
+  read/unit.rs    allow_section_offset, parse_attribute (R-SPLIT: 5 verified verbatim copies), skip_attributes,
                   AttributeValue::{u8_value, u16_value, udata_value, sdata_value, offset_value, exprloc_value},
                   Attribute::{name, form, raw_value, value, u8_value, u16_value, udata_value, sdata_value, offset_value,
                   exprloc_value},  UnitHeader::encoding (only as the argument of AttributeSpecification::size)
@@ -20,6 +20,11 @@ skip == read is one-directional (DESIGN C03): `skip_attributes` Ok ==> advanced 
 spec of what reading the specs one by one consumes ([C03:read-len] says parse_attribute Ok ==> advanced by attr_end(..)).
 "read fails ==> skip fails" is false of the code by design (skip_leb128 accepts over-long LEB128; an address size outside
 {1,2,4,8} is skipped but not read) and is not claimed.
+Totality ([C03:decode-total-*], [C03:skip-total-*]): every clause above is conditional on Ok, so a form dropped from a switch
+would go unnoticed; for directly specified forms whose primitives have an exact error condition in the Reader contract
+layer (fixed-size reads, split/skip, read_uleb128, skip_leb128) a complete well-formed encoding must decode / be skipped.
+Under the fallible Reader contract the error KIND of a primitive is unconstrained, so "UnknownForm only for unknown forms"
+cannot be stated; address / word / SLEB128 / string reads have no exact error condition and get no totality clause.
 
 Finding (genuine defect, fails on the pinned tree -> exit 1):  F2  skip_attributes `skip_bytes += R::Offset::from_u8(len)`
 possible arithmetic overflow.  Native reproducer native/src/bin/f_attrs_1.rs (fix described there; with the fix applied
@@ -378,6 +383,69 @@ def legacy_clause(code, name, n, fmt):
             f'adv(b0, final(input).rv(), (p + {n}) as nat) }}) }})')
 
 
+# forms whose decoded value passes through ReaderOffset::from_u64 (contract: Ok at least for values <= 0xffff_ffff)
+VIA_FROM_U64 = {'DW_FORM_strx3', 'DW_FORM_addrx3', 'DW_FORM_ref8', 'DW_FORM_ref_sup8', 'DW_FORM_ref_udata', 'DW_FORM_strx', 'DW_FORM_addrx', 'DW_FORM_loclistx',
+                'DW_FORM_rnglistx', 'DW_FORM_GNU_addr_index', 'DW_FORM_GNU_str_index', 'DW_FORM_block', 'DW_FORM_exprloc'}
+
+
+def total_clauses():
+    """Totality: a well-formed, complete encoding of a (directly specified) form decodes - so a dropped or mis-keyed arm of
+    the decode switch is caught although every other clause is conditional on Ok.  Stated exactly where the Reader
+    contract layer gives an exact error condition for the primitives involved (fixed-size reads, split, read_uleb128);
+    address / word / SLEB128 / string reads only have the fallible contract, for them nothing can be claimed."""
+    out = []
+    B0 = 'old(input).rv()'
+    for code, name, kind, _, _ in FORMS:
+        fit = ' && o <= 0xffff_ffff' if name in VIA_FROM_U64 else ''
+        if kind in ('u1', 'u2', 'u3', 'u4', 'u8', 'u16', 'data4', 'data8'):
+            n = FIXED[kind]
+            val = f'let o = b0.u(0, {n}); ' if fit else ''
+            cond = f'b0.len >= {n}{fit}'
+            if kind in ('data4', 'data8'):      # the legacy section-offset reading goes through read_offset (fallible contract only)
+                fmt = 'Dwarf32' if kind == 'data4' else 'Dwarf64'
+                cond += f' && !({ENC}.format == Format::{fmt} && sec_offset_attr(spec.sname().0, {ENC}.version))'
+        elif kind == 'zero':
+            val, cond = '', 'true'
+        elif kind == 'implicit':
+            val, cond = '', 'true'
+        elif kind == 'uleb':
+            val, cond = 'let o = b0.uleb(0); ', f'b0.leb_ok(0) && b0.leb_len(0) <= 10 && o <= u64::MAX{fit}'
+        elif kind in ('blk1', 'blk2', 'blk4'):
+            k = int(kind[3])
+            val = 'let o = b0.at(0) as nat; ' if k == 1 else f'let o = b0.u(0, {k}); '
+            cond = f'b0.len >= {k} + o'
+        elif kind == 'blku':
+            val, cond = 'let o = b0.uleb(0); ', f'b0.leb_ok(0) && b0.leb_len(0) <= 10 && b0.len >= b0.leb_len(0) + o{fit}'
+        else:
+            continue
+        out.append(f'[C03:decode-total-{name[8:]}] spec.sform().0 == {code:#x} ==> ({{ let b0 = {B0}; {val}{cond} ==> res is Ok }})')
+    return out
+
+
+def skip_total_clauses():
+    """Totality of skipping for a one-attribute list with a directly specified form (same idea as total_clauses): catches
+    a form dropped from, or mis-sized in, the skipper's own switch, which the one-directional skip == read cannot."""
+    out = []
+    B0 = 'old(input).rv()'
+    for code, name, kind, _, _ in FORMS:
+        fit = ' && o <= 0xffff_ffff' if name in ('DW_FORM_block', 'DW_FORM_exprloc') else ''
+        fe = fixed_expr(kind, ENC)
+        if fe is not None:
+            val, cond = '', f'b0.len >= {fe}'
+        elif kind in ('uleb', 'sleb'):
+            val, cond = '', 'b0.leb_ok(0)'
+        elif kind in ('blk1', 'blk2', 'blk4'):
+            k = int(kind[3])
+            val = 'let o = b0.at(0) as nat; ' if k == 1 else f'let o = b0.u(0, {k}); '
+            cond = f'b0.len >= {k} + o'
+        elif kind == 'blku':
+            val, cond = 'let o = b0.uleb(0); ', f'b0.leb_ok(0) && b0.leb_len(0) <= 10 && b0.len >= b0.leb_len(0) + o{fit}'
+        else:
+            continue
+        out.append(f'[C03:skip-total-{name[8:]}] specs@.len() == 1 && specs@[0].sform().0 == {code:#x} ==> ({{ let b0 = {B0}; {val}{cond} ==> res is Ok }})')
+    return out
+
+
 def parse_clauses():
     out = []
     for code, name, kind, pat, cons in FORMS:
@@ -394,20 +462,19 @@ def parse_clauses():
         out.append(f'[C03:decode-{short}]{view} {HEAD} f == {code:#x} ==> ({{ {operand_lets(kind)} '
                    f'(val matches {pat} && ({cons}) && adv(b0, final(input).rv(), (p + n) as nat)) }}) }})')
     # R-SPLIT partitions the list round-robin (clause i goes to copy i % SPLIT); lay the list out so that the copies are:
-    # the decode clauses in SPLIT-1 groups, and one copy with the size-function clause and the error/frame clauses
+    # the decode clauses in SPLIT-2 groups, one copy with the size-function clause and the error/frame clauses, and one
+    # copy with the totality clauses (padding with `true` keeps the round-robin aligned)
     misc = [
         # ties reading to the generated size functions (what skip_attributes is proved against)
         '[C03:read-len] res is Ok ==> adv(old(input).rv(), final(input).rv(), '
         f'attr_end(old(input).rv(), {ENC}, spec.sform().0 as nat, 0) as nat)',
         '[C03:unknown-form] !known_form(ind_form(old(input).rv(), spec.sform().0 as nat, 0)) ==> res is Err',
-        # ... and only unknown forms are rejected as such (a dropped arm of the decode switch is caught here)
-        '[C03:unknown-form-only] res matches Err(Error::UnknownForm(f)) ==> !known_form(f.0 as nat)',
         # the value of an implicit const lives in the abbreviation; reached through DW_FORM_indirect there is none
         '[C03:implicit-const-indirect] spec.sform().0 != 0x21 && ind_form(old(input).rv(), spec.sform().0 as nat, 0) == 0x21 ==> res is Err',
         '[C03:attr-name] res matches Ok(attr) ==> attr.sname() == spec.sname() && attr.sform() == spec.sform()',
         '[C01:frame] within(old(input).rv(), final(input).rv())']
-    k = SPLIT - 1
-    groups = [out[i::k] for i in range(k)] + [misc]
+    k = SPLIT - 2
+    groups = [out[i::k] for i in range(k)] + [misc, total_clauses()]
     n = max(len(g) for g in groups)
     res = []
     for i in range(n):
@@ -416,7 +483,7 @@ def parse_clauses():
     return res
 
 
-SPLIT = 4
+SPLIT = 5
 
 
 def size_clauses():
@@ -607,6 +674,7 @@ use crate::aspec::*;''')
               loops={0: f'''invariant within(old(input).rv(), input.rv()),
                   ind_form(old(input).rv(), spec.sform().0 as nat, 0) == ind_form(old(input).rv(), form.0 as nat, {P}),
                   ind_pos(old(input).rv(), spec.sform().0 as nat, 0) == ind_pos(old(input).rv(), form.0 as nat, {P}),
+                  spec.sform().0 != 0x16 ==> form == spec.sform() && input.rv() == old(input).rv(),
                   decreases input.rv().len'''},
               before=[('let dynamic_form = input.read_uleb128_u16()?;',
                        f'proof {{ lemma_ind_step(old(input).rv(), {P} as int); }}'),
@@ -625,15 +693,18 @@ use crate::aspec::*;''')
     B = 'old(input).rv()'
     PEND = f'(input.rv().start - {B}.start + skip_bytes)'
     TOTAL = f'attrs_end({B}, encoding, specs@, 0, 0)'
-    sa.splice('skip_attributes', ret='res', owners=OWN, ensures=[
-        f'[C03:skip-eq-read] res is Ok ==> adv({B}, final(input).rv(), {TOTAL} as nat)',
-        '[C03:skip-unknown-form-only] res matches Err(Error::UnknownForm(f)) ==> !known_form(f.0 as nat)',
-        f'[C01:frame] within({B}, final(input).rv())'],
+    main = [f'[C03:skip-eq-read] res is Ok ==> adv({B}, final(input).rv(), {TOTAL} as nat)',
+            f'[C01:frame] within({B}, final(input).rv())']
+    tot = skip_total_clauses()
+    # (not R-SPLIT: the split original is external_body, where the ghost iterator `it` of the for loop does not exist)
+    sa.splice('skip_attributes', ret='res', owners=OWN, ensures=main + tot,
         loops={0: f'''invariant within({B}, input.rv()),
+                   it.index == 0 ==> skip_bytes == 0 && input.rv() == {B},
                    {TOTAL} == attrs_end({B}, encoding, specs@, it.index as int, {PEND}), // [C03:skip-eq-read]
 ''',
                1: f'''invariant_except_break within({B}, input.rv()),
-                   0 <= it.index@ < specs@.len(), spec == specs@[it.index@], 
+                   0 <= it.index@ < specs@.len(), spec == specs@[it.index@],
+                   it.index@ == 0 && spec.sform().0 != 0x16 ==> form == spec.sform() && skip_bytes == 0 && input.rv() == {B},
                    {TOTAL} == attrs_end({B}, encoding, specs@, it.index@ + 1, attr_end({B}, encoding, form.0 as nat, {PEND})), // [C03:skip-eq-read]
                    ensures within({B}, input.rv()), 0 <= it.index@ < specs@.len(),
                    {TOTAL} == attrs_end({B}, encoding, specs@, it.index@ + 1, {PEND}), // [C03:skip-eq-read]
@@ -643,6 +714,8 @@ use crate::aspec::*;''')
                 ('let _ = input.read_null_terminated_slice()?;', 'let ghost v0 = input.rv();')],
         after=[('if let Some(len) = get_attribute_size(form, encoding) {', f'proof {{ lemma_attr_end_fixed({B}, encoding, form.0 as nat, {PEND} as int, len as nat); }}'),
                ('let _ = input.read_null_terminated_slice()?;', 'proof { lemma_cstr_len0(v0, (input.rv().start - v0.start - 1) as nat); }')])
+    # after the loop, for the one-attribute totality clauses: the pending position is attr_end of that attribute
+    sa.insert_before('if skip_bytes != R::Offset::from_u8(0) {', 'proof { if specs@.len() == 1 { reveal(attr_end); reveal_with_fuel(attrs_end, 3); } }\n    ', nth=1)
     sk.add('read::unit', sa)
     return sk
 
